@@ -217,6 +217,9 @@ var lexPieces = []string{
 	"\n", " ", "\t", "\r\n", "//", "// c\n", "/", "/ /", "///",
 	"=", "==", "=~", "!", "!=", "!~", "!!", "<", "<=", ">", ">=", "<>", "=<",
 	"+", "-", "*", "%", "|", ",", ";", "(", ")", "[", "]", "{", "}", "#", "@", "\x00", "\xff", "\xc3", "\xe2\x82",
+	"/*", "*/", "/* c */", "/* c;\n d */", "AND", "Or", "IN", "By", "aNd",
+	// digits and numerics outside ASCII, other scripts' letters
+	"\u0663", "\uff15", "\u00b2", "\u2167", "\u0967", "\u4e00",
 }
 
 func genLexString(t *rapid.T) string {
